@@ -402,4 +402,11 @@ def r10_5(run):
     run.floor(10)
 
 
-RULES = [("R10.1", r10_1), ("R10.2", r10_2), ("R10.4", r10_4), ("R10.5", r10_5)]
+def r10_6(run):
+    """the thermal law is compared with the numpy kernel (R10.1); the numba twin must compute the same guarded expressions
+    (shared with C07 R7.1, restricted to the thermal kernel pair)"""
+    from .c07 import r7_1
+    r7_1(run, only={"derivatives_termal"}, floor=4, residual_only=True)
+
+
+RULES = [("R10.1", r10_1), ("R10.2", r10_2), ("R10.4", r10_4), ("R10.5", r10_5), ("R10.6", r10_6)]
